@@ -40,20 +40,21 @@ fn fwd(op: &Op, _ctx: &dyn Context, operands: &mut dyn CoordinateSet) -> usize {
 fn inv(op: &Op, _ctx: &dyn Context, operands: &mut dyn CoordinateSet) -> usize {
     let mut successes = 0_usize;
 
-    // The scale factor is the ratio of the two unit factors (rounded once)
+    // The scale factor of the reverse mapping is the ratio of the two unit factors the
+    // other way round (rounded once): the inverse of "in=A out=B" is the forward "in=B out=A"
     let xy_in_to_pivot = op.params.real("xy_in_to_pivot").unwrap();
     let xy_out_to_pivot = op.params.real("xy_out_to_pivot").unwrap();
-    let xy = xy_in_to_pivot / xy_out_to_pivot;
+    let xy = xy_out_to_pivot / xy_in_to_pivot;
 
     let z_in_to_pivot = op.params.real("z_in_to_pivot").unwrap();
     let z_out_to_pivot = op.params.real("z_out_to_pivot").unwrap();
-    let z = z_in_to_pivot / z_out_to_pivot;
+    let z = z_out_to_pivot / z_in_to_pivot;
 
     for i in 0..operands.len() {
         let mut coord = operands.get_coord(i);
-        coord[0] /= xy;
-        coord[1] /= xy;
-        coord[2] /= z;
+        coord[0] *= xy;
+        coord[1] *= xy;
+        coord[2] *= z;
         operands.set_coord(i, &coord);
         successes += 1;
     }
